@@ -734,3 +734,21 @@ def _container_setitem(ctx, prog, cls, label):
     tests = [n.test for n in ast.walk(si.node) if isinstance(n, ast.If)]
     has = any(("not in" in canon(t)) and p[0] in canon(t) for t in tests) and bool(raises)
     ctx.check(has, si, si.node, f"{label}.__setitem__ rejects unknown keys", f"{label}.__setitem__ no longer rejects unknown keys", construct=f"{label} unknown-key test")
+    # no other method of the container writes an item past that setter (dict.__setitem__ / dict.update / dict.setdefault
+    # / super().__setitem__): the value would not be copied and the key not checked.  Moving an item that is already
+    # stored (``dict.__setitem__(self, k, dict.pop(self, k))``) adds nothing and is accepted.
+    for m in cls.methods.values():
+        if m is si:
+            continue
+        for n in ast.walk(m.node):
+            if not (isinstance(n, ast.Call) and isinstance(n.func, ast.Attribute) and n.func.attr in ("__setitem__", "update", "setdefault")):
+                continue
+            recv = canon(n.func.value)
+            direct = recv in ("dict", "super()", "OrderedDict", "collections.OrderedDict") or (recv == "self" and n.func.attr in ("update", "setdefault"))
+            if not direct:
+                continue
+            if n.func.attr == "__setitem__" and len(n.args) >= 3 and isinstance(n.args[2], ast.Call) and canon(n.args[2].func) in ("dict.pop", "super().pop") and len(n.args[2].args) >= 2 and canon(n.args[2].args[1]) == canon(n.args[1]):
+                continue
+            if m.node.name == "__init__" and recv in ("dict", "super()") and n.func.attr == "update":
+                continue  # construction
+            ctx.fail(m, n, f"{label}.{m.node.name} stores an item with {recv}.{n.func.attr}(), past the checking and copying item setter: unknown keys are accepted and the caller's object is shared", construct=f"{label}.{m.node.name} bypasses __setitem__")
